@@ -323,7 +323,22 @@ func runSession(n int, seed uint64, gitbug string, steps int) []*Event {
 				if err != nil {
 					return err.Error(), 1
 				}
-				_, _, err = b.AddCommentWithFiles("another", []repository.Hash{h1})
+				// several operations carrying files in one commit: new files, files attached before, the same file twice
+				var hs []repository.Hash
+				for j := 0; j < 4; j++ {
+					h, err := c.StoreData([]byte(fmt.Sprintf("attachment %d.%d", k, j)))
+					if err != nil {
+						return err.Error(), 1
+					}
+					hs = append(hs, h)
+				}
+				_, _, err = b.AddCommentWithFiles("another", []repository.Hash{hs[0]})
+				if err == nil {
+					_, _, err = b.AddCommentWithFiles("and another", []repository.Hash{h1, hs[1], hs[0], hs[2]})
+				}
+				if err == nil {
+					_, _, err = b.AddCommentWithFiles("and a last one", []repository.Hash{hs[3], hs[3]})
+				}
 				if err == nil {
 					err = b.Commit()
 				}
